@@ -41,13 +41,33 @@ CHECK = {'level': 'exploration',
          'checks of Verify (mirrored in the harness for classification only), i.e. it reaches CalculateRoot; labels forged-*:stage=... give '
          'the fraction that died in input validation vs. reached CalculateRoot (which error / root mismatch) and forged-*:forged-branch=... what '
          'happened to the forged branch (dropped onto an honest path / honest branch dropped onto it / queued next to it / sibling merge / '
-         'reached the root alone)',
+         'reached the root alone). FIELD RE-SPLITTING AND LENGTH FORGERIES (TestResplitEnum deterministic, TestResplitMulti rapid, TestResplitDirected on '
+         'the proofs returned by Prove; every tier): nothing is length-prefixed when hashed (leaf = H(00|key|value), branch = H(01|left|right)), so '
+         'starting from an honest single-query or multi-query proof (model answers + assembled sibling hashes; 1-5 queries; target first / last / in '
+         'the middle; other honest queries pending deeper and at-or-above the target height; the target also twice = honest copy + forged copy) the '
+         'LENGTHS and FIELD BOUNDARIES of one query or of every query are changed while the query keys keep the correct length: 1/2/3/8/16/31/32 '
+         '(and drawn) leading value bytes moved to the end of the key (key longer, value shorter down to empty), 1/2/8/L-1/L (and drawn) trailing '
+         'key bytes moved to the front of the value (key shorter down to empty, value longer) - both keep key|value and therefore leaf hash, path and '
+         'root, but turn an inclusion query into an absence claim for a PRESENT key; keys with 1/8/L extra trailing or leading bytes (zero, ff, junk, '
+         'copied value bytes, the key repeated = lengths L+1, L+8, 2L), keys with the tail or head cut off (L-1, L-8, 0); value alone shorter/longer; '
+         'a ghost key of correct length on the same path with the same value next to the honest query (inclusion claim for an absent key); bitmap '
+         'with 1-2 leading zero bytes or one trailing byte; first/last sibling hash with 31/33/0/64 bytes; bitmap and sibling variants also combined '
+         'with a wrong value on the target, key variants also with the query key following the proof key (control). Targets: inclusion queries, '
+         'absence shown by an empty node, absence shown by another leaf. Tries: every seventh (thorough: every) enumerated one-byte trie, fixed '
+         '6-key tries of key length 2/4/32/38 (last-bit sibling pair, 9 and 4 shared bits), drawn tries of 1-24 keys. Oracle unchanged: Verify true on '
+         'the real root => every certified claim about a queried key (present with value / absent) and every ClaimsHold clause agrees with the '
+         'reference map. Non-trivial length-forged case = the set contains a false claim AND (it passes the input checks of Verify = reaches the '
+         'hashing stage, OR every query of it still hashes to the real root with the honest sibling hashes, i.e. only field validation can reject '
+         'it); labels resplit-*:stage=..., resplit-*:reached-CalculateRoot(hashing stage), resplit-*:every-query-still-hashes-to-the-real-root, '
+         'resplit-*:false-claim-AND-hashes-to-the-real-root:<class>, resplit-*:proofkey-length=L+1/L-1/L+8/2L/0/..., resplit-*:class/variant/set/target',
  'level_text': 'Differential test of trie.Update against an independent naive LIP-0039 root (recursion over key bits, no subtrees) after every '
                'batch of generated histories on three store kinds with reopen, plus model-free history-independence checks; completeness of '
                'Prove/Verify with the answers checked against the map; soundness under 20 kinds of tampering of honest proofs and under '
                'systematically forged multi-query proofs (forged queries derived from honest queries of the same proof, placed below / at / '
                'beside / above them, before and after them in key order, with 0-3 honest queries pending deeper and shallower): a tampered or '
-               'forged proof that still verifies must assert only true facts about the map, against the real root and key length; proof codec '
+               'forged proof that still verifies must assert only true facts about the map, against the real root and key length; the same under '
+               'field re-splitting and length forgeries (key/value boundary moved in both directions, over-long and truncated proof keys, '
+               'bitmap and sibling-hash length games) of single-query and multi-query proofs with query keys of correct length; proof codec '
                'round trip.',
  'level_note': 'Sampled, not exhaustive. Model = my reading of LIP-0039 (cross-checked by model-free two-route/rebuild comparisons and by the '
                'repository\'s own fixtures passing). Values are 32 bytes (what the state-tree caller passes) except in the event pattern.',
@@ -62,11 +82,13 @@ CHECK = {'level': 'exploration',
            {'pkg': 'c10', 'run': 'TestEventPattern', 'checks': 600, 'timeout': 600},
            {'pkg': 'c10', 'run': 'TestLargeMaps', 'checks': 6, 'timeout': 600},
            {'pkg': 'c10', 'run': 'TestDense', 'checks': 4, 'timeout': 600, 'shrinktime': '6s'},
-           {'pkg': 'c10', 'run': 'TestForged', 'checks': 200, 'timeout': 600, 'shrinktime': '10s'}],
+           {'pkg': 'c10', 'run': 'TestForged', 'checks': 200, 'timeout': 600, 'shrinktime': '10s'},
+           {'pkg': 'c10', 'run': 'TestResplit', 'checks': 200, 'timeout': 600, 'shrinktime': '10s'}],
  'thorough': [{'pkg': 'c10', 'run': 'TestHistory|TestTwoRoutes|TestRegress', 'checks': 20000, 'shards': 12, 'timeout': 2400},
               {'pkg': 'c10', 'run': 'TestEventPattern', 'checks': 6000, 'shards': 2, 'timeout': 2400},
               {'pkg': 'c10', 'run': 'TestLargeMaps', 'checks': 32, 'shards': 2, 'timeout': 2400},
               {'pkg': 'c10', 'run': 'TestDense', 'checks': 40, 'shards': 2, 'timeout': 2400, 'shrinktime': '6s'},
               {'pkg': 'c10', 'run': 'TestForgedMulti', 'checks': 600, 'shards': 2, 'timeout': 2400, 'shrinktime': '10s'},
-              {'pkg': 'c10', 'run': 'TestForgedEnum', 'shards': 2, 'timeout': 2400}],
+              {'pkg': 'c10', 'run': 'TestForgedEnum', 'shards': 2, 'timeout': 2400},
+              {'pkg': 'c10', 'run': 'TestResplit', 'checks': 1500, 'shards': 2, 'timeout': 2400, 'shrinktime': '10s'}],
  'replay': [{'pkg': 'c10', 'timeout': 600}]}
